@@ -120,6 +120,9 @@ def to_iter(ex, st, v):
     if isinstance(v, Agg) and v.name == 'Range':
         a = ex.conc_int(st, v.f[0]); b = ex.conc_int(st, v.f[1])
         return It('range', a, b, v.f[0].ty)
+    if isinstance(v, Agg) and v.name == 'RangeInclusive':
+        a = ex.conc_int(st, v.f[0]); b = ex.conc_int(st, v.f[1])
+        return It('range', a, b + 1, v.f[0].ty)
     if isinstance(v, Seq):                      # array / Vec by value
         return It('list', v.e, 0)
     if isinstance(v, Ref):                      # &Vec / &[T] / &BitVec / &IntoChunks
@@ -153,7 +156,7 @@ def s_into_iter(ex, st, fr, args, info):
 def s_next(ex, st, fr, args, info):
     loc = as_loc(args[0])
     it = ex.load(st, loc)
-    if isinstance(it, Agg) and it.name == 'Range':
+    if isinstance(it, Agg) and it.name in ('Range', 'RangeInclusive'):
         it = to_iter(ex, st, it)
     it2, x = it_next(ex, st, it)
     ex.store(st, loc, it2)
@@ -1010,7 +1013,22 @@ def s_pow(ex, st, fr, args, info):
 
 @summary('int::count_ones', 'int::leading_zeros', 'int::trailing_zeros')
 def s_bitcount(ex, st, fr, args, info):
-    a = ex.conc_int(st, args[0]); w = WIDTH[args[0].ty]; u = a & ((1 << w) - 1)
+    w = WIDTH[args[0].ty]
+    if not args[0].conc:
+        # symbolic operand: the count as a term (an if-chain over the bits), so that a path forks over at most w+1 results, not 2^w operands
+        t = args[0].t
+        bit = lambda k: z3.Extract(k, k, t) == 1
+        if info['method'] == 'count_ones':
+            r = z3.BitVecVal(0, 32)
+            for k in range(w): r = r + z3.If(bit(k), z3.BitVecVal(1, 32), z3.BitVecVal(0, 32))
+        elif info['method'] == 'leading_zeros':
+            r = z3.BitVecVal(w, 32)
+            for k in range(w): r = z3.If(bit(k), z3.BitVecVal(w - 1 - k, 32), r)
+        else:
+            r = z3.BitVecVal(w, 32)
+            for k in range(w - 1, -1, -1): r = z3.If(bit(k), z3.BitVecVal(k, 32), r)
+        return lift(simp(r), 'u32')
+    a = ex.conc_int(st, args[0]); u = a & ((1 << w) - 1)
     if info['method'] == 'count_ones': return mkint(bin(u).count('1'), 'u32')
     if info['method'] == 'leading_zeros': return mkint(w - u.bit_length(), 'u32')
     return mkint((u & -u).bit_length() - 1 if u else w, 'u32')
